@@ -1179,6 +1179,24 @@ def infeasible(rng, n):
     return out
 
 
+def many_scenarios(rng, n):
+    """C11 (cost proportional to size): small projects with limits on containers / groups (inherited by everything
+    below) under 4-5 scenarios, nested and side by side, with a few scenario-specific efforts."""
+    out = []
+    tries = 0
+    while len(out) < n and tries < 50 * n:
+        tries += 1
+        pid, p = limits_profile(rng, 1)[0]
+        if not any(t.kids and t.limits for t in p.tasks) and not any(r.kids and r.limits for r in p.res):
+            continue
+        p.scenarios = [("plan", [("s1", [("s2", [("s3", [])] if rng.random() < 0.5 else [])]), ("s4", [])])]
+        for t in p.tasks:
+            if not t.kids and t.effort and rng.random() < 0.4:
+                t.scen[rng.choice(["s1", "s2", "s4"])] = {"effort": max(p.G, t.effort // 2 // p.G * p.G)}
+        out.append(("scen%04d" % len(out), p))
+    return out
+
+
 def corruptions(text, rng, k):
     """k corrupted variants of a valid text: token deletion / duplication / swap, truncation, brace damage,
     absurd numbers and dates."""
